@@ -233,6 +233,46 @@ pub fn open_funded_perm(w: &mut World, spec: &ChanSpec, fs: &FundSpec, perm: boo
     Funded { ci, funding_tx, wallet_inputs, content0: c0 }
 }
 
+/// A ready channel (no commitment validated yet) whose funding transaction is a real one
+/// (one wallet input, funding output at index 0) and is confirmed in a block connected to the
+/// node's tracker: the state in which an on-chain validator lets commitments advance.
+/// The node must be on regtest (`regtest_cfg`).
+pub fn open_confirmed(w: &mut World, spec: &ChanSpec) -> (usize, Transaction) {
+    let ci = match w.new_stub(spec) {
+        Out::Ok(i) => i,
+        o => panic!("new_stub failed: {}", o.err_msg()),
+    };
+    let path: DerivationPath = vec![ChildNumber::from_normal_idx(10).unwrap()].into();
+    let _ = w.node.get_native_address(&path).expect("address");
+    let funding_spk = w.chans[ci].funding_redeemscript().to_p2wsh();
+    let funding_tx = Transaction {
+        version: Version::TWO,
+        lock_time: LockTime::ZERO,
+        input: vec![txin(ext_outpoint("wallet", spec.dbid, 0), Sequence::MAX)],
+        output: vec![TxOut { value: Amount::from_sat(spec.value_sat), script_pubkey: funding_spk }],
+    };
+    w.chans[ci].setup.funding_outpoint = OutPoint { txid: funding_tx.compute_txid(), vout: 0 };
+    match w.setup_chan(ci) {
+        Out::Ok(()) => {}
+        o => panic!("setup_chan failed: {}", o.err_msg()),
+    }
+    let tip = w.node.get_tracker().tip().0;
+    let height = w.node.get_tracker().height() + 1;
+    let block = make_block(&tip, height, spec.dbid, vec![funding_tx.clone()]);
+    let node = w.node.clone();
+    let d = w.txn(|| {
+        let d = tracker_add(&node, &block, false, 0);
+        let t = node.get_tracker();
+        node.get_persister().update_tracker(&node.get_id(), &t).expect("persist tracker");
+        d
+    }).0;
+    match d {
+        Deliver::Ok => {}
+        d => panic!("connecting the funding block failed: {:?}", d),
+    }
+    (ci, funding_tx)
+}
+
 fn must<T>(o: Out<T>, what: &str) -> T {
     match o {
         Out::Ok(t) => t,
